@@ -661,12 +661,12 @@ class Run:
             return ('rpcW%d' if i in self.rpc_started else 'rpc%d') % i
         if q == 'run_coroutine_threadsafe.<locals>.callback' and self.rpc_tramp:
             return 'rpcT%d' % self.rpc_tramp[0]
-        if q.endswith('Waiting._awaitable_done') and getattr(h._callback, '__self__', None) is not None \
-                and h._callback.__self__.process is self.proc:
+        # (recognised by what they are attached to, not by the private names of the callbacks)
+        if getattr(getattr(h._callback, '__self__', None), 'process', None) is self.proc and h._args:
             for j in self.futs:
                 if self._fut(j) is h._args[0]:
                     return 'aw%d' % j
-        if 'try_killing' in q:
+        if 'try_killing' in q or (q.startswith('Process.init.<locals>') and h._args and h._args[0] is self.proc.future()):
             fut = h._args[0] if h._args else None
             return 'trykill' if fut is not None and fut.cancelled() else 'noise'
         return 'noise'
